@@ -238,6 +238,7 @@ class Run:
         self.final: dict | None = None
         self.abort: str | None = None
         self.W = float(sc.get('W') or (self._max_wait(sc) + 0.5))
+        self.max_records = int(sc.get('max_records', 40000))
 
     # ---------------------------------------------------------------- utilities
     @staticmethod
@@ -277,6 +278,8 @@ class Run:
         kw['seq'] = self.n
         kw['vt'] = self.loop._vt if self.loop is not None else 0.0
         self.tr.append(kw)
+        if self.n > self.max_records and self.loop is not None:
+            self.loop.max_steps = 0  # runaway program: the loop aborts with Hang('steps') at its next iteration
         return self.n
 
     def tag_of(self, event) -> int:
